@@ -587,3 +587,522 @@ Proof.
   rewrite E. now apply first_index_dir.
 Qed.
 End TryFind.
+
+(* ------------------------------------------------------------------------------------------------ *)
+(* prefix stripping                                                                                  *)
+(* ------------------------------------------------------------------------------------------------ *)
+Lemma strip_prefix_app p r : strip_prefix p (p ++ r) = Some r.
+Proof. induction p as [|x p IH]; [now destruct r|]. cbn [app strip_prefix]. now rewrite N.eqb_refl. Qed.
+
+Lemma route_without_wildcard_star p : match rev (p ++ [42]) with 42 :: r => rev r | _ => p ++ [42] end = p.
+Proof. rewrite rev_app_distr. cbn [rev app]. apply rev_involutive. Qed.
+
+Lemma route_without_wildcard_none p : last p 0 <> 42 -> match rev p with 42 :: r => rev r | _ => p end = p.
+Proof.
+  intro H. destruct (rev p) as [|x r] eqn:E; [reflexivity|]. rewrite match42.
+  destruct (x =? 42) eqn:Ex; [|reflexivity]. apply N.eqb_eq in Ex. subst x. exfalso. apply H.
+  apply (f_equal (@rev N)) in E. rewrite rev_involutive in E. subst p. cbn [rev]. apply last_last.
+Qed.
+
+Lemma literal_prefix_len_cons x pat :
+  literal_prefix_len (x :: pat) =
+  if x =? 42 then O else if cont x then literal_prefix_len pat else S (literal_prefix_len pat).
+Proof. cbn [literal_prefix_len]. apply match42. Qed.
+
+Lemma skip_cont_boundary l : starts_on_boundary l -> skip_cont l = l.
+Proof. destruct l as [|b r]; [reflexivity|]. cbn [starts_on_boundary skip_cont]. now intros ->. Qed.
+
+Lemma drop_chars_skip tail rest : starts_on_boundary rest -> forall p, nob 42 p = true ->
+  drop_chars (literal_prefix_len (p ++ 42 :: tail)) (skip_cont (p ++ rest)) = Some rest.
+Proof.
+  intros Hr. induction p as [|x p IH]; intro Hp.
+  - cbn [app]. rewrite literal_prefix_len_cons, N.eqb_refl. cbn [drop_chars]. now rewrite skip_cont_boundary.
+  - rewrite nob_cons in Hp. apply andb_true_iff in Hp as [Hx Hp]. apply negb_true_iff in Hx.
+    cbn [app]. rewrite literal_prefix_len_cons, Hx. cbn [skip_cont].
+    destruct (cont x); [now apply IH|]. cbn [drop_chars]. now apply IH.
+Qed.
+
+(* String::remove(0) as many times as the pattern has characters before its first '*' removes exactly that prefix *)
+Lemma drop_chars_prefix p tail rest :
+  nob 42 p = true -> starts_on_boundary p -> starts_on_boundary rest ->
+  drop_chars (literal_prefix_len (p ++ 42 :: tail)) (p ++ rest) = Some rest.
+Proof.
+  intros Hp Hb Hr. rewrite <- (skip_cont_boundary (p ++ rest)); [now apply drop_chars_skip|].
+  destruct p as [|x p]; [exact Hr | exact Hb].
+Qed.
+
+Lemma decode_boundary s n : pct_decode s = Some n -> starts_on_boundary n -> starts_on_boundary s.
+Proof.
+  unfold pct_decode. destruct s as [|c r]; [intros; exact I|]. cbn [percent_decode starts_on_boundary].
+  destruct (c =? pct) eqn:E; [apply N.eqb_eq in E; subst c; reflexivity|].
+  destruct (percent_decode r); [|discriminate]. intros [= <-]. exact (fun H => H).
+Qed.
+
+Lemma boundary_app a b : a <> [] -> starts_on_boundary a -> starts_on_boundary (a ++ b).
+Proof. destruct a; [contradiction | intros _ H; exact H]. Qed.
+
+Lemma rest_boundary k segs st front t :
+  spells segs front -> pct_decode st = Some t -> Forall name_ok front -> Forall cleanP front -> utf8 t ->
+  starts_on_boundary (repeat SLASH k ++ dir_path segs ++ st).
+Proof.
+  intros Hs Hst Hfo Hfc Htu. destruct k as [|k]; [|reflexivity]. cbn [repeat app].
+  destruct Hs as [|s n segs front Hsn Hs].
+  - cbn [dir_path flat_map app]. eapply decode_boundary; [exact Hst | now apply utf8_starts_on_boundary].
+  - rewrite dir_path_cons, <- app_assoc. apply boundary_app.
+    + intros ->. inversion Hfo as [|? ? (Hne & _) _]; subst. cbv in Hsn. congruence.
+    + eapply decode_boundary; [exact Hsn|]. inversion Hfc as [|? ? (Hu & _) _]; subst. now apply utf8_starts_on_boundary.
+Qed.
+
+(* ------------------------------------------------------------------------------------------------ *)
+(* Path::extension                                                                                   *)
+(* ------------------------------------------------------------------------------------------------ *)
+Definition no_dot (l : bytes) : Prop := existsb (fun b => b =? DOT) l = false.
+
+Lemma last_dot_split_no_dot l : no_dot l -> forall acc cur seen,
+  last_dot_split l acc cur seen = if seen then Some (acc, cur ++ l) else None.
+Proof.
+  unfold no_dot. induction l as [|c l IH]; intros H acc cur seen; cbn [last_dot_split].
+  - now rewrite app_nil_r.
+  - cbn [existsb] in H. apply orb_false_iff in H as [H1 H2]. rewrite H1, (IH H2). now rewrite <- app_assoc.
+Qed.
+
+Lemma last_dot_split_spec ext : no_dot ext -> forall l1 acc cur seen,
+  last_dot_split (l1 ++ DOT :: ext) acc cur seen =
+  Some ((if seen then acc ++ DOT :: cur else cur) ++ l1, ext).
+Proof.
+  intro He. induction l1 as [|c l1 IH]; intros acc cur seen; cbn [app last_dot_split].
+  - rewrite N.eqb_refl, (last_dot_split_no_dot ext He). cbn [app]. now rewrite app_nil_r.
+  - destruct (c =? DOT) eqn:E.
+    + apply N.eqb_eq in E. subst c. rewrite IH. cbn [app]. f_equal. f_equal. now rewrite <- app_assoc.
+    + rewrite IH. f_equal. f_equal. destruct seen; rewrite <- !app_assoc; cbn [app]; rewrite <- ?app_assoc; reflexivity.
+Qed.
+
+(* the extension is the text after the last '.', unless the name has no '.' or only a leading one *)
+Lemma extension_some stem ext : stem <> [] -> no_dot ext -> extension (stem ++ DOT :: ext) = Some ext.
+Proof.
+  intros Hs He. unfold extension. rewrite (last_dot_split_spec ext He). cbn [app]. now destruct stem.
+Qed.
+
+Lemma extension_none name : no_dot name -> extension name = None.
+Proof. intro H. unfold extension. now rewrite (last_dot_split_no_dot name H). Qed.
+
+Lemma extension_hidden r : no_dot r -> extension (DOT :: r) = None.
+Proof. intro H. unfold extension. now rewrite (last_dot_split_spec r H []). Qed.
+
+Lemma mime_html : mime_of_ext [104;116;109;108] = [116;101;120;116;47;104;116;109;108].
+Proof. vm_compute. reflexivity. Qed.
+Lemma mime_htm : mime_of_ext [104;116;109] = [116;101;120;116;47;104;116;109;108].
+Proof. vm_compute. reflexivity. Qed.
+
+(* ------------------------------------------------------------------------------------------------ *)
+(* serving a located file                                                                            *)
+(* ------------------------------------------------------------------------------------------------ *)
+Lemma serve_loc_file fs loc t always c :
+  node_at fs (loc ++ [t]) = Some (File c) ->
+  serve_loc fs (loc ++ [t]) always = R200 c (content_type_of always t).
+Proof.
+  intro H. unfold serve_loc, content_type_of. rewrite H, last_last. now destruct (extension t).
+Qed.
+
+(* ------------------------------------------------------------------------------------------------ *)
+(* the handlers: serve_dir and the server's directory routes                                         *)
+(* ------------------------------------------------------------------------------------------------ *)
+Lemma names_split (names : list bytes) : names <> [] -> names = removelast names ++ [last names []].
+Proof. intro H. now apply app_removelast_last. Qed.
+
+Lemma Forall_clean_cleanP names : Forall clean names -> Forall cleanP names.
+Proof. intro H. eapply Forall_impl; [|exact H]. apply clean_cleanP. Qed.
+
+(* how a route pattern relates to the literal prefix it strips from the uri *)
+Definition path_aware_route (route prefix : bytes) : Prop :=
+  route = prefix ++ [42] \/ (route = prefix /\ last prefix 0 <> 42).
+
+Lemma serve_dir_strip route prefix rest :
+  path_aware_route route prefix ->
+  match strip_prefix (match rev route with 42 :: r => rev r | _ => route end) (prefix ++ rest) with
+  | Some r => r | None => prefix ++ rest end = rest.
+Proof.
+  intros [->|[-> H]].
+  - now rewrite route_without_wildcard_star, strip_prefix_app.
+  - now rewrite route_without_wildcard_none, strip_prefix_app.
+Qed.
+
+Definition directory_route (matches prefix : bytes) : Prop :=
+  (exists tail, matches = prefix ++ 42 :: tail) /\
+  existsb (fun b => b =? 42) prefix = false /\ utf8_valid prefix = true.
+
+Section Complete.
+Variables (fs : node) (directory : bytes) (root : list bytes).
+Hypothesis Hwf : wf_fs fs.
+Hypothesis Hd : walk fs [] (split_on SLASH (trim_end_slashes directory)) = Some root.
+
+Let Hnul : has_nul (trim_end_slashes directory) = false := dir_no_nul fs _ root Hwf Hd.
+
+Lemma names_ok names nd : node_at fs (root ++ names) = Some nd -> Forall name_ok names.
+Proof. intro H. destruct (wf_fs_node_at _ _ _ Hwf H) as [_ F]. now apply Forall_app in F as [_ F]. Qed.
+
+(* the shared path finder locates every clean existing path: files as files, directories as directories *)
+Theorem try_find_path_complete k names segs nd :
+  names <> [] -> Forall clean names -> spells segs names -> node_at fs (root ++ names) = Some nd ->
+  try_find_path fs directory (repeat SLASH k ++ join SLASH segs) =
+  match nd with File _ => Some (LFile (root ++ names)) | Dir _ => Some LDir end.
+Proof.
+  intros Hne Hc Hs Hn. pose proof (names_ok names nd Hn) as Hok. apply Forall_clean_cleanP in Hc.
+  rewrite (names_split names Hne) in *. set (front := removelast names) in *. set (t := last names []) in *.
+  clearbody front t. clear Hne.
+  apply spells_split in Hs as (sf & st & -> & Hsf & Hst). rewrite join_snoc_dir_path.
+  apply Forall_app in Hok as [Hfo Hto]. apply Forall_app in Hc as [Hfc Htc].
+  inversion Hto as [|? ? Hto' _]; subst. inversion Htc as [|? ? Htc' _]; subst.
+  rewrite (try_find_path_name fs directory root Hnul Hd k sf st front t Hsf Hst Hfo Hfc Hto' Htc').
+  rewrite Hn. now destruct nd.
+Qed.
+
+Lemma rest_boundary_names k names segs nd :
+  names <> [] -> Forall clean names -> spells segs names -> node_at fs (root ++ names) = Some nd ->
+  starts_on_boundary (repeat SLASH k ++ join SLASH segs).
+Proof.
+  intros Hne Hc Hs Hn. pose proof (names_ok names nd Hn) as Hok. apply Forall_clean_cleanP in Hc.
+  rewrite (names_split names Hne) in *. set (front := removelast names) in *. set (t := last names []) in *.
+  clearbody front t. clear Hne.
+  apply spells_split in Hs as (sf & st & -> & Hsf & Hst). rewrite join_snoc_dir_path.
+  apply Forall_app in Hok as [Hfo _]. apply Forall_app in Hc as [Hfc Htc].
+  inversion Htc as [|? ? (Htu & _) _]; subst.
+  now apply (rest_boundary k sf st front t).
+Qed.
+
+Lemma serve_loc_names names always c :
+  names <> [] -> node_at fs (root ++ names) = Some (File c) ->
+  serve_loc fs (root ++ names) always = R200 c (content_type_of always (last names [])).
+Proof.
+  intros Hne Hn. rewrite (names_split names Hne) in Hn |- * at 1. rewrite app_assoc in *. now apply serve_loc_file.
+Qed.
+
+Lemma directory_strip matches prefix rest :
+  directory_route matches prefix -> starts_on_boundary rest ->
+  drop_chars (literal_prefix_len matches) (prefix ++ rest) = Some rest.
+Proof.
+  intros ((tail & ->) & Hstar & Hu) Hr. apply drop_chars_prefix; [now apply existsb_nob | | exact Hr].
+  now apply utf8_starts_on_boundary, utf8_valid_iff.
+Qed.
+
+(* 1. serve_dir returns every clean file *)
+Theorem serve_dir_complete route prefix k names segs content :
+  path_aware_route route prefix ->
+  names <> [] -> Forall clean names -> spells segs names ->
+  node_at fs (root ++ names) = Some (File content) ->
+  serve_dir fs directory route (prefix ++ repeat SLASH k ++ join SLASH segs) =
+  R200 content (content_type_of false (last names [])).
+Proof.
+  intros Hr Hne Hc Hs Hn. unfold serve_dir. rewrite (serve_dir_strip route prefix _ Hr).
+  rewrite (try_find_path_complete k names segs _ Hne Hc Hs Hn). now apply serve_loc_names.
+Qed.
+
+(* 2. so do the server's directory routes *)
+Theorem directory_handler_complete matches prefix k names segs content :
+  directory_route matches prefix ->
+  names <> [] -> Forall clean names -> spells segs names ->
+  node_at fs (root ++ names) = Some (File content) ->
+  directory_handler fs directory matches (prefix ++ repeat SLASH k ++ join SLASH segs) =
+  R200 content (content_type_of true (last names [])).
+Proof.
+  intros Hr Hne Hc Hs Hn. unfold directory_handler.
+  rewrite (directory_strip matches prefix _ Hr (rest_boundary_names k names segs _ Hne Hc Hs Hn)).
+  rewrite (try_find_path_complete k names segs _ Hne Hc Hs Hn). now apply serve_loc_names.
+Qed.
+
+(* 4. a directory requested without trailing slash redirects to the slash form *)
+Theorem serve_dir_redirect route prefix k names segs es :
+  path_aware_route route prefix ->
+  names <> [] -> Forall clean names -> spells segs names ->
+  node_at fs (root ++ names) = Some (Dir es) ->
+  serve_dir fs directory route (prefix ++ repeat SLASH k ++ join SLASH segs) =
+  R301 ((prefix ++ repeat SLASH k ++ join SLASH segs) ++ [SLASH]).
+Proof.
+  intros Hr Hne Hc Hs Hn. unfold serve_dir. rewrite (serve_dir_strip route prefix _ Hr).
+  now rewrite (try_find_path_complete k names segs _ Hne Hc Hs Hn).
+Qed.
+
+Theorem directory_handler_redirect matches prefix k names segs es :
+  directory_route matches prefix ->
+  names <> [] -> Forall clean names -> spells segs names ->
+  node_at fs (root ++ names) = Some (Dir es) ->
+  directory_handler fs directory matches (prefix ++ repeat SLASH k ++ join SLASH segs) =
+  R301 ((prefix ++ repeat SLASH k ++ join SLASH segs) ++ [SLASH]).
+Proof.
+  intros Hr Hne Hc Hs Hn. unfold directory_handler.
+  rewrite (directory_strip matches prefix _ Hr (rest_boundary_names k names segs _ Hne Hc Hs Hn)).
+  now rewrite (try_find_path_complete k names segs _ Hne Hc Hs Hn).
+Qed.
+
+(* 5. the slash form serves index.html, else index.htm, else 404 (names = [] is the served directory itself) *)
+Lemma index_serve front es always :
+  node_at fs (root ++ front) = Some (Dir es) ->
+  match
+    match assoc_name INDEX_HTML es with
+    | Some (File _) => Some (LFile (root ++ front ++ [INDEX_HTML]))
+    | _ => match assoc_name INDEX_HTM es with
+           | Some (File _) => Some (LFile (root ++ front ++ [INDEX_HTM]))
+           | _ => None
+           end
+    end
+  with
+  | Some LDir => R301 []
+  | Some (LFile loc) => serve_loc fs loc always
+  | None => R404
+  end = index_response es.
+Proof.
+  intro Hn. unfold index_response.
+  assert (A : forall f, node_at fs ((root ++ front) ++ [f]) = assoc_name f es).
+  { intro f. rewrite node_at_app, Hn. cbn [node_at]. now destruct (assoc_name f es). }
+  destruct (assoc_name INDEX_HTML es) as [[c1|es1]|] eqn:E1.
+  - rewrite app_assoc. rewrite (serve_loc_file fs (root ++ front) INDEX_HTML always c1) by (now rewrite A). reflexivity.
+  - destruct (assoc_name INDEX_HTM es) as [[c2|es2]|] eqn:E2; try reflexivity.
+    rewrite app_assoc. rewrite (serve_loc_file fs (root ++ front) INDEX_HTM always c2) by (now rewrite A). reflexivity.
+  - destruct (assoc_name INDEX_HTM es) as [[c2|es2]|] eqn:E2; try reflexivity.
+    rewrite app_assoc. rewrite (serve_loc_file fs (root ++ front) INDEX_HTM always c2) by (now rewrite A). reflexivity.
+Qed.
+
+Lemma try_find_path_index k names segs es :
+  Forall clean names -> spells segs names -> node_at fs (root ++ names) = Some (Dir es) ->
+  try_find_path fs directory (repeat SLASH k ++ dir_path segs) =
+    match assoc_name INDEX_HTML es with
+    | Some (File _) => Some (LFile (root ++ names ++ [INDEX_HTML]))
+    | _ => match assoc_name INDEX_HTM es with
+           | Some (File _) => Some (LFile (root ++ names ++ [INDEX_HTM]))
+           | _ => None
+           end
+    end.
+Proof.
+  intros Hc Hs Hn. apply (try_find_path_slash fs directory root Hnul Hd k segs names es Hs); [|now apply Forall_clean_cleanP|exact Hn].
+  exact (names_ok names _ Hn).
+Qed.
+
+Theorem serve_dir_index route prefix k names segs es :
+  path_aware_route route prefix ->
+  Forall clean names -> spells segs names ->
+  node_at fs (root ++ names) = Some (Dir es) ->
+  serve_dir fs directory route (prefix ++ repeat SLASH k ++ dir_path segs) = index_response es.
+Proof.
+  intros Hr Hc Hs Hn. unfold serve_dir. rewrite (serve_dir_strip route prefix _ Hr).
+  rewrite (try_find_path_index k names segs es Hc Hs Hn).
+  rewrite <- (index_serve names es false Hn).
+  destruct (assoc_name INDEX_HTML es) as [[?|?]|]; try reflexivity; destruct (assoc_name INDEX_HTM es) as [[?|?]|]; reflexivity.
+Qed.
+
+Lemma dir_rest_boundary k names segs es :
+  Forall clean names -> spells segs names -> node_at fs (root ++ names) = Some (Dir es) ->
+  starts_on_boundary (repeat SLASH k ++ dir_path segs).
+Proof.
+  intros Hc Hs Hn. rewrite <- (app_nil_r (dir_path segs)).
+  apply (rest_boundary k segs [] names []); [exact Hs | reflexivity | exact (names_ok names _ Hn) | now apply Forall_clean_cleanP | constructor].
+Qed.
+
+Theorem directory_handler_index matches prefix k names segs es :
+  directory_route matches prefix ->
+  Forall clean names -> spells segs names ->
+  node_at fs (root ++ names) = Some (Dir es) ->
+  directory_handler fs directory matches (prefix ++ repeat SLASH k ++ dir_path segs) = index_response es.
+Proof.
+  intros Hr Hc Hs Hn. unfold directory_handler.
+  rewrite (directory_strip matches prefix _ Hr (dir_rest_boundary k names segs es Hc Hs Hn)).
+  rewrite (try_find_path_index k names segs es Hc Hs Hn).
+  rewrite <- (index_serve names es true Hn).
+  destruct (assoc_name INDEX_HTML es) as [[?|?]|]; try reflexivity; destruct (assoc_name INDEX_HTM es) as [[?|?]|]; reflexivity.
+Qed.
+
+(* a clean path that does not exist is a 404 (no other file is served in its place) *)
+Theorem serve_dir_missing route prefix k front t segs es :
+  path_aware_route route prefix ->
+  Forall clean (front ++ [t]) -> name_ok t -> spells segs (front ++ [t]) ->
+  node_at fs (root ++ front) = Some (Dir es) -> assoc_name t es = None ->
+  serve_dir fs directory route (prefix ++ repeat SLASH k ++ join SLASH segs) = R404.
+Proof.
+  intros Hr Hc Ht Hs Hn Hnone. unfold serve_dir. rewrite (serve_dir_strip route prefix _ Hr).
+  apply Forall_clean_cleanP in Hc. apply Forall_app in Hc as [Hfc Htc]. inversion Htc as [|? ? Htc' _]; subst.
+  apply spells_split in Hs as (sf & st & -> & Hsf & Hst). rewrite join_snoc_dir_path.
+  rewrite (try_find_path_name fs directory root Hnul Hd k sf st front t Hsf Hst (names_ok front _ Hn) Hfc Ht Htc').
+  rewrite app_assoc, node_at_app, Hn. cbn [node_at]. now rewrite Hnone.
+Qed.
+End Complete.
+
+(* ------------------------------------------------------------------------------------------------ *)
+(* 3. serve_as_file_path: the literal (undecoded) path                                               *)
+(* ------------------------------------------------------------------------------------------------ *)
+Theorem serve_as_file_path_complete fs directory root names content :
+  wf_fs fs ->
+  walk fs [] (split_on SLASH (match rev directory with 47 :: r => rev r | _ => directory end)) = Some root ->
+  names <> [] -> Forall no_dd_colon names ->
+  node_at fs (root ++ names) = Some (File content) ->
+  serve_as_file_path fs directory (SLASH :: join SLASH names) =
+  R200 content (content_type_of false (last names [])).
+Proof.
+  intros Hwf Hd Hne Hc Hn. change (SLASH :: join SLASH names) with (47 :: join SLASH names).
+  unfold serve_as_file_path. lazy match.
+  match goal with |- context [resolve fs (?d ++ _)] => set (dir := d) in * end.
+  change (walk fs [] (split_on SLASH dir) = Some root) in Hd.
+  pose proof (dir_no_nul fs dir root Hwf Hd) as Hnul.
+  destruct (wf_fs_node_at _ _ _ Hwf Hn) as [_ Hok]. apply Forall_app in Hok as [_ Hok].
+  rewrite (names_split names Hne) in *. set (front := removelast names) in *. set (t := last names []) in *.
+  clearbody front t. clear Hne. rewrite join_snoc_dir_path, last_last.
+  apply Forall_app in Hok as [Hfo Hto]. apply Forall_app in Hc as [Hfc Htc].
+  inversion Hto as [|? ? Hto' _]; subst. inversion Htc as [|? ? (Htd & Htc') _]; subst.
+  assert (Hslash : Forall no_slash front) by (eapply Forall_impl; [|exact Hfo]; apply name_ok_no_slash).
+  rewrite contains_dd_path, contains_colon_path; try assumption;
+    try (eapply Forall_impl; [|exact Hfc]; now intros a (? & ?)).
+  cbn [orb]. destruct Hto' as (Hne & Hd1 & Hd2 & Hts & Htn).
+  rewrite (resolve_path fs dir (dir_path front ++ t) root (front ++ [t]) Hnul).
+  - rewrite ends_with_slash_path_file by assumption. rewrite Hn, Hn.
+    cbn [app]. rewrite StaticFsProofs.split_on_app, split_path by assumption.
+    rewrite app_assoc, last_last. unfold content_type_of. now destruct (extension t).
+  - apply has_nul_path; [|exact Htn]. eapply Forall_impl; [|exact Hfo]. now intros a (_ & _ & _ & _ & ?).
+  - exact Hd.
+  - now apply split_path.
+  - apply Forall_app. split; [eapply Forall_impl; [|exact Hfo]; apply name_ok_step|]. constructor; [|constructor].
+    now repeat split.
+Qed.
+
+(* ------------------------------------------------------------------------------------------------ *)
+(* the two spellings the property names                                                              *)
+(* ------------------------------------------------------------------------------------------------ *)
+Lemma clean_bytes names : Forall clean names -> Forall (Forall is_byte) names.
+Proof. intro H. eapply Forall_impl; [|exact H]. intros a (Hu & _). now apply utf8_bytes, utf8_valid_iff. Qed.
+
+(* every name percent-encoded (the unreserved bytes stay, every other byte becomes %XX) *)
+Lemma spells_encoded names : Forall clean names -> spells (map percent_encode names) names.
+Proof. intro H. now apply spells_encode, clean_bytes. Qed.
+
+Lemma decode_self_iff n : pct_decode n = Some n <-> existsb (fun b => b =? pct) n = false.
+Proof. split; [apply decode_self_no_pct | apply decode_raw]. Qed.
+
+(* ------------------------------------------------------------------------------------------------ *)
+(* the statements as the property words them: request = route prefix ++ the path, each name percent-encoded (or raw)  *)
+(* ------------------------------------------------------------------------------------------------ *)
+Section Spelled.
+Variables (fs : node) (directory : bytes) (root : list bytes).
+Hypothesis Hwf : wf_fs fs.
+Hypothesis Hd : walk fs [] (split_on SLASH (trim_end_slashes directory)) = Some root.
+
+Corollary serve_dir_complete_encoded route prefix names content :
+  path_aware_route route prefix -> names <> [] -> Forall clean names ->
+  node_at fs (root ++ names) = Some (File content) ->
+  serve_dir fs directory route (prefix ++ join SLASH (map percent_encode names)) =
+  R200 content (content_type_of false (last names [])).
+Proof.
+  intros Hr Hne Hc Hn.
+  exact (serve_dir_complete fs directory root Hwf Hd route prefix 0 names _ content Hr Hne Hc (spells_encoded names Hc) Hn).
+Qed.
+
+Corollary serve_dir_complete_raw route prefix names content :
+  path_aware_route route prefix -> names <> [] -> Forall clean names ->
+  Forall (fun n => pct_decode n = Some n) names ->
+  node_at fs (root ++ names) = Some (File content) ->
+  serve_dir fs directory route (prefix ++ join SLASH names) =
+  R200 content (content_type_of false (last names [])).
+Proof.
+  intros Hr Hne Hc Hraw Hn.
+  exact (serve_dir_complete fs directory root Hwf Hd route prefix 0 names _ content Hr Hne Hc (spells_raw names Hraw) Hn).
+Qed.
+
+Corollary directory_handler_complete_encoded matches prefix names content :
+  directory_route matches prefix -> names <> [] -> Forall clean names ->
+  node_at fs (root ++ names) = Some (File content) ->
+  directory_handler fs directory matches (prefix ++ join SLASH (map percent_encode names)) =
+  R200 content (content_type_of true (last names [])).
+Proof.
+  intros Hr Hne Hc Hn.
+  exact (directory_handler_complete fs directory root Hwf Hd matches prefix 0 names _ content Hr Hne Hc
+           (spells_encoded names Hc) Hn).
+Qed.
+
+Corollary directory_handler_complete_raw matches prefix names content :
+  directory_route matches prefix -> names <> [] -> Forall clean names ->
+  Forall (fun n => pct_decode n = Some n) names ->
+  node_at fs (root ++ names) = Some (File content) ->
+  directory_handler fs directory matches (prefix ++ join SLASH names) =
+  R200 content (content_type_of true (last names [])).
+Proof.
+  intros Hr Hne Hc Hraw Hn.
+  exact (directory_handler_complete fs directory root Hwf Hd matches prefix 0 names _ content Hr Hne Hc
+           (spells_raw names Hraw) Hn).
+Qed.
+
+Corollary serve_dir_redirect_encoded route prefix names es :
+  path_aware_route route prefix -> names <> [] -> Forall clean names ->
+  node_at fs (root ++ names) = Some (Dir es) ->
+  serve_dir fs directory route (prefix ++ join SLASH (map percent_encode names)) =
+  R301 ((prefix ++ join SLASH (map percent_encode names)) ++ [SLASH]).
+Proof.
+  intros Hr Hne Hc Hn.
+  exact (serve_dir_redirect fs directory root Hwf Hd route prefix 0 names _ es Hr Hne Hc (spells_encoded names Hc) Hn).
+Qed.
+
+Corollary directory_handler_redirect_encoded matches prefix names es :
+  directory_route matches prefix -> names <> [] -> Forall clean names ->
+  node_at fs (root ++ names) = Some (Dir es) ->
+  directory_handler fs directory matches (prefix ++ join SLASH (map percent_encode names)) =
+  R301 ((prefix ++ join SLASH (map percent_encode names)) ++ [SLASH]).
+Proof.
+  intros Hr Hne Hc Hn.
+  exact (directory_handler_redirect fs directory root Hwf Hd matches prefix 0 names _ es Hr Hne Hc
+           (spells_encoded names Hc) Hn).
+Qed.
+
+Corollary serve_dir_index_encoded route prefix names es :
+  path_aware_route route prefix -> names <> [] -> Forall clean names ->
+  node_at fs (root ++ names) = Some (Dir es) ->
+  serve_dir fs directory route (prefix ++ join SLASH (map percent_encode names) ++ [SLASH]) = index_response es.
+Proof.
+  intros Hr Hne Hc Hn. rewrite <- dir_path_join by (destruct names; [contradiction | discriminate]).
+  exact (serve_dir_index fs directory root Hwf Hd route prefix 0 names _ es Hr Hc (spells_encoded names Hc) Hn).
+Qed.
+
+Corollary directory_handler_index_encoded matches prefix names es :
+  directory_route matches prefix -> names <> [] -> Forall clean names ->
+  node_at fs (root ++ names) = Some (Dir es) ->
+  directory_handler fs directory matches (prefix ++ join SLASH (map percent_encode names) ++ [SLASH]) = index_response es.
+Proof.
+  intros Hr Hne Hc Hn. rewrite <- dir_path_join by (destruct names; [contradiction | discriminate]).
+  exact (directory_handler_index fs directory root Hwf Hd matches prefix 0 names _ es Hr Hc (spells_encoded names Hc) Hn).
+Qed.
+
+(* the served directory itself: the request is the route prefix alone *)
+Corollary serve_dir_index_root route prefix es :
+  path_aware_route route prefix -> node_at fs root = Some (Dir es) ->
+  serve_dir fs directory route prefix = index_response es.
+Proof.
+  intros Hr Hn. rewrite <- (app_nil_r root) in Hn. rewrite <- (app_nil_r prefix) at 1.
+  exact (serve_dir_index fs directory root Hwf Hd route prefix 0 [] [] es Hr (Forall_nil _) (Forall2_nil _) Hn).
+Qed.
+
+Corollary directory_handler_index_root matches prefix es :
+  directory_route matches prefix -> node_at fs root = Some (Dir es) ->
+  directory_handler fs directory matches prefix = index_response es.
+Proof.
+  intros Hr Hn. rewrite <- (app_nil_r root) in Hn. rewrite <- (app_nil_r prefix) at 1.
+  exact (directory_handler_index fs directory root Hwf Hd matches prefix 0 [] [] es Hr (Forall_nil _) (Forall2_nil _) Hn).
+Qed.
+End Spelled.
+
+(* ------------------------------------------------------------------------------------------------ *)
+(* reading aids                                                                                      *)
+(* ------------------------------------------------------------------------------------------------ *)
+Lemma assoc_name_iff n es v : NoDup (map fst es) -> (In (n, v) es <-> assoc_name n es = Some v).
+Proof. intro H. split; [now apply assoc_name_unique | apply assoc_name_In]. Qed.
+
+Lemma split_join names : names <> [] ->
+  Forall (fun n => existsb (fun b => b =? SLASH) n = false) names -> split_on SLASH (join SLASH names) = names.
+Proof.
+  intros Hne H. rewrite (names_split names Hne) in *. apply Forall_app in H as [Hf Ht].
+  inversion Ht as [|? ? Ht' _]; subst. rewrite join_snoc_dir_path. now apply split_path.
+Qed.
+
+Lemma index_response_spec es :
+  index_response es =
+  match assoc_name [105;110;100;101;120;46;104;116;109;108] es with
+  | Some (File c) => R200 c (Some [116;101;120;116;47;104;116;109;108])
+  | _ => match assoc_name [105;110;100;101;120;46;104;116;109] es with
+         | Some (File c) => R200 c (Some [116;101;120;116;47;104;116;109;108])
+         | _ => R404
+         end
+  end.
+Proof. unfold index_response. rewrite mime_html, mime_htm. reflexivity. Qed.
